@@ -225,9 +225,10 @@ theorem heavy_hitters_all_tagged (srcs : List Dict) (hfree : (mergedMG srcs).don
     ∀ e ∈ (mergedMG srcs).done, ((Dict.newFrom srcs).lookup e.1).isSome :=
   Dict.newFrom_all_tagged srcs hfree
 
-/-- … and when no Misra-Gries compaction happens during the merge (fewer than 1024 entries in total), the
+/-- … and when no Misra-Gries compaction happens during the merge (fewer than `MG.cap` entries in total; `MG.cap` is
+the capacity literal of `MisraGries::default()`, regenerated from the source — 1024 in the crate as verified), the
 heavy hitters of the merge are all the (consolidated) entries of all the sources -/
-theorem all_sources_tagged (srcs : List Dict) (hsmall : (srcs.map (·.mg.done.length)).sum < 1024)
+theorem all_sources_tagged (srcs : List Dict) (hsmall : (srcs.map (·.mg.done.length)).sum < MG.cap)
     (hfree : (mergedMG srcs).done.length ≤ freeTags srcs) :
     ∀ s ∈ srcs, ∀ e ∈ s.mg.done, ((Dict.newFrom srcs).lookup e.1).isSome := by
   intro s hs e he
@@ -235,15 +236,15 @@ theorem all_sources_tagged (srcs : List Dict) (hsmall : (srcs.map (·.mg.done.le
   exact Dict.newFrom_all_tagged srcs hfree (e.1, c) hc
 
 /-- in terms of what was pushed: a source that started with empty statistics (fresh, cleared or merged)
-and saw fewer than 1024 strings has every non-empty one of them tagged by the merge, and the merged
+and saw fewer than `MG.cap` strings has every non-empty one of them tagged by the merge, and the merged
 region then stores it as one byte -/
-theorem all_pushed_tagged (srcs : List Dict) (hsmall : (srcs.map (·.mg.done.length)).sum < 1024)
+theorem all_pushed_tagged (srcs : List Dict) (hsmall : (srcs.map (·.mg.done.length)).sum < MG.cap)
     (hfree : (mergedMG srcs).done.length ≤ freeTags srcs)
-    (d0 : Dict) (bs : List Bytes) (h0 : d0.mg = ⟨[]⟩) (hbs : bs.length < 1024)
+    (d0 : Dict) (bs : List Bytes) (h0 : d0.mg = ⟨[]⟩) (hbs : bs.length < MG.cap)
     (hs : bs.foldl Dict.observe d0 ∈ srcs) (b : Bytes) (hb : b ∈ bs) (hne : b ≠ []) :
     ((Dict.newFrom srcs).lookup b).isSome ∧
     ∀ (inner : Bytes) r' i, Region.push (⟨inner, Dict.newFrom srcs⟩ : Codec.Region) b = some (r', i) → i.2 - i.1 = 1 := by
-  have hmg := Dict.observe_foldl_mg bs d0 (by rw [h0]; simp only [List.length_nil, MG.cap]; omega)
+  have hmg := Dict.observe_foldl_mg bs d0 (by rw [h0]; simp only [List.length_nil]; omega)
   rw [h0, List.nil_append] at hmg
   have hin : (b, 1) ∈ (bs.foldl Dict.observe d0).mg.inner := by
     rw [hmg]
@@ -263,11 +264,11 @@ theorem all_pushed_tagged (srcs : List Dict) (hsmall : (srcs.map (·.mg.done.len
 
 /-- the hypotheses are satisfiable: one source that saw "ab","c","ab" (2 heavy hitters, 254 free tags) -/
 example : let srcs := [[[97, 98], [99], [97, 98]].foldl Dict.observe Dict.default]
-    (srcs.map (·.mg.done.length)).sum < 1024 ∧ (mergedMG srcs).done.length ≤ freeTags srcs ∧
+    (srcs.map (·.mg.done.length)).sum < MG.cap ∧ (mergedMG srcs).done.length ≤ freeTags srcs ∧
     (mergedMG srcs).done.length = 2 ∧ freeTags srcs = 254 := by
   set_option maxRecDepth 100000 in decide
 
-/- The compaction case (1024 or more insertions, `tidy` drops entries) is treated in Props/C07MG.lean:
+/- The compaction case (`MG.cap` or more insertions, `tidy` drops entries) is treated in Props/C07MG.lean:
 the Misra–Gries guarantee this `tidy` achieves, its composition through `new_from`, and
 `dominant_strings_tagged`. Not proved: the converse direction (which strings do NOT get a tag). -/
 
